@@ -22,6 +22,7 @@ EXPLANATION = (
     "evaluate_with::<I>() append exactly one PopulationEvaluator<Global> / <I>; init inserts Evaluations(0); (R5) any "
     "Scope a template builds around an evaluating body merges the inner Evaluations counter back. NOT decided: the "
     "numeric budget overshoot bound; thread-safety of user objective functions.")
+EXPLANATION += " " + "(R1 revised) the counter is a cell of the typed store; (R2 also) slices holding EQUAL solutions next to each other and apart: every individual is evaluated on its own; (R7, K6) the firefly update on the real stack with a ranking in which a moved firefly becomes the best: every move is followed by exactly one evaluation of exactly the moved firefly by the held evaluator of the component's own identifier, the counter advances by exactly the number of evaluations made, the population is back on top of an untouched stack; (R3 revised) who may invoke an evaluator: the evaluation step (R1) and the firefly update (R7) - any OTHER call site must be followed by an equal advance of the counter (CFG pairing); (INIT) the counter starts at zero in the current scope, also on a used state and inside a scope whose surroundings count too."
 ASSUMPTIONS = ["rayon's par_iter_mut().for_each visits every element exactly once"]
 
 EVAL = "mahf::problems::evaluate::Evaluate::evaluate"
